@@ -42,7 +42,9 @@ TARGET_KINDS = ["tgt_para", "tgt_head", "attr_para", "attr_span", "attr_head", "
 # names that have to be percent-encoded inside a link destination (only the '(name)=' kinds can carry them)
 SPECIAL_NAMES = ["name with spaces", "\u00fcberblick"]
 SPECIAL_KINDS = ["tgt_para", "tgt_head", "tgt_bare"]
-NAMES = ["alpha", "beta-gamma", "t1", "x-y-z", "note1", "alpha-1", "delta", "fig-a", "eq1", "zeta"]
+NAMES = ["alpha", "beta-gamma", "t1", "x-y-z", "note1", "alpha-1", "delta", "fig-a", "eq1", "zeta",
+         # names whose docutils *identifier* differs from the name as written (links use the name)
+         "fig_one", "sec:intro"]
 TITLES = ["Alpha", "alpha", "Beta gamma", "Alpha 1", "Delta", "Other title"]
 WRAPS = [None, None, None, "quote", "list", "note"]
 LINK_WRAPS = [None, None, "quote", "list", "note", "cell"]
